@@ -1,14 +1,33 @@
 //! Counting allocator (C14): records the largest single allocation requested on any thread that
-//! is not flagged as harness, while armed.
+//! is not flagged as harness, while armed; and the number of bytes that are live in the whole
+//! process, with its peak since the last reset.
 
 use std::alloc::{GlobalAlloc, Layout, System};
 use std::cell::Cell;
-use std::sync::atomic::{AtomicBool, AtomicUsize, Ordering};
+use std::sync::atomic::{AtomicBool, AtomicIsize, AtomicUsize, Ordering};
 
 pub struct Counting;
 
 pub static ARMED: AtomicBool = AtomicBool::new(false);
 pub static MAX_SINGLE: AtomicUsize = AtomicUsize::new(0);
+pub static LIVE: AtomicIsize = AtomicIsize::new(0);
+pub static PEAK: AtomicIsize = AtomicIsize::new(0);
+
+/// the peak starts again from what is live now; returns that baseline
+pub fn reset_peak() -> isize {
+    let now = LIVE.load(Ordering::SeqCst);
+    PEAK.store(now, Ordering::SeqCst);
+    now
+}
+
+fn grow(by: usize) {
+    let now = LIVE.fetch_add(by as isize, Ordering::Relaxed) + by as isize;
+    PEAK.fetch_max(now, Ordering::Relaxed);
+}
+
+fn shrink(by: usize) {
+    LIVE.fetch_sub(by as isize, Ordering::Relaxed);
+}
 
 thread_local! {
     /// true on harness threads outside library calls
@@ -31,17 +50,25 @@ fn note(size: usize) {
 unsafe impl GlobalAlloc for Counting {
     unsafe fn alloc(&self, layout: Layout) -> *mut u8 {
         note(layout.size());
+        grow(layout.size());
         System.alloc(layout)
     }
     unsafe fn dealloc(&self, ptr: *mut u8, layout: Layout) {
+        shrink(layout.size());
         System.dealloc(ptr, layout)
     }
     unsafe fn alloc_zeroed(&self, layout: Layout) -> *mut u8 {
         note(layout.size());
+        grow(layout.size());
         System.alloc_zeroed(layout)
     }
     unsafe fn realloc(&self, ptr: *mut u8, layout: Layout, new_size: usize) -> *mut u8 {
         note(new_size);
+        if new_size >= layout.size() {
+            grow(new_size - layout.size());
+        } else {
+            shrink(layout.size() - new_size);
+        }
         System.realloc(ptr, layout, new_size)
     }
 }
